@@ -6,5 +6,5 @@ Extraction "model.ml" Z.add Z.mul Z.opp Z.pow Z.compare Z.eqb Z.ltb Z.leb Z.to_p
   module_init module_step_uses colvar_init colvar_step_uses corrfunc_uses bias_init bias_step_uses
   meta_init meta_step_uses abf_init abf_step_uses moving_init moving_step_uses coordnum_init coordnum_step_uses
   opes_init opes_step_uses grid_init grid_sizes histrestr_init scripted_init vector_keyword colvarx_validate walls_validate opesx_validate metax_validate abfshared_validate alb_validate kmoving_validate opes_sigma_nlist_validate rmsd_validate ebmeta_validate mkEnv parse_config_ext mkCBlock mkMState parse_config all_ok accepted verdict_of
-  parse_config6 reset6 run_session6 mkCfg6 mkModst mkCvd mkGd mkBd read_index_file add_index_group
+  parse_config6 reset6 delete_bias6 delete_cv6 run_session6 mkCfg6 mkModst mkCvd mkGd mkBd read_index_file add_index_group
   mkModConf mkMod mkCvConf mkBiasConf mkMetaConf mkAbfConf mkMovConf mkPairConf mkOpesConf mkDim mkHrConf mkBlock mkLists.
